@@ -529,9 +529,9 @@ class TrackWorld(World):
         return {}
 
     def _g_fork_concat(self, r, m):
-        self.tagc += 70
+        self.rtagc = getattr(self, "rtagc", 0) + 300
         return {"other": r.randrange(self.cfg["sessions"]), "to": r.randrange(self.cfg["sessions"]),
-                "how": r.choice(["plus", "plus", "first", "mod2"]), "tag0": self.tagc - 70}
+                "how": r.choice(["plus", "plus", "first", "mod2"]), "tag0": self.rtagc - 300}
 
     def _g_fork_derived(self, r, m):
         return {"to": r.randrange(self.cfg["sessions"]),
@@ -567,16 +567,16 @@ class TrackWorld(World):
         return {"i": r.randrange(64)}
 
     def _g_transform(self, r, m):
-        self.tagc += 70
+        self.rtagc = getattr(self, "rtagc", 0) + 300
         return {"kind": r.choice(["shift_default", "shift_default", "shift_to", "translate", "scale"]),
                 "i": r.randrange(64), "tx": r.choice([1.0, -2.5, 100.0]), "ty": r.choice([0.0, 3.0]),
-                "h": r.choice([2.0, 0.5, 3.0]), "tag0": self.tagc - 70}
+                "h": r.choice([2.0, 0.5, 3.0]), "tag0": self.rtagc - 300}
 
     def _g_fork_noise(self, r, m):
-        self.tagc += 70
+        self.rtagc = getattr(self, "rtagc", 0) + 300
         return {"to": r.randrange(self.cfg["sessions"]), "mode": r.choice(["linear", "circular", "euclidian"]),
                 "sigma": r.choice([0.5, 2.0]), "scope": r.choice([None, 5.0, 50.0]), "seed": r.randrange(10 ** 6),
-                "tag0": self.tagc - 70}
+                "tag0": self.rtagc - 300}
 
     def _g_add_seconds(self, r, m):
         return {"sec": r.choice([30, 3600, 86400, -30, 86400 * 20, 1])}
@@ -1184,6 +1184,14 @@ class TrackWorld(World):
         if out in RESERVED:
             raise Skip()
         real_op = getattr(Operator, opr)
+        if "POWER" in opr:
+            # integer columns raised to integer powers are exact big-integer arithmetic: 823543 ** 823543
+            # takes seconds and is no hang of the library; powers are applied to float columns only
+            cols = [self._col(m, st["in1"])] + ([self._col(m, st["in2"])] if opr in ANY_BINARY and
+                                                self._numeric(m, st.get("in2", "")) else [])
+            if any(not isinstance(v, float) for c in cols for v in c) or (
+                    opr in ANY_SCALAR and not isinstance(st.get("arg"), float)):
+                raise Skip()
         if opr in ANY_UNARY:
             args = (real_op, st["in1"]) if st.get("out") is None else (real_op, st["in1"], out)
         elif opr in ANY_BINARY:
@@ -2197,7 +2205,8 @@ class TrackWorld(World):
         for i, o in enumerate(m["obs"]):
             ro = t.getObs(i)
             if id(ro) not in seen:
-                seen[id(ro)] = (tag0 + len(seen) + 1) * 2.0 ** -24
+                # negative heights: a namespace of its own, disjoint from the tags new fixes are drawn with
+                seen[id(ro)] = -(tag0 + len(seen) + 1) * 2.0 ** -24
                 ro.position.setZ(seen[id(ro)])
             o["z"] = seen[id(ro)]
 
